@@ -344,7 +344,7 @@ func firstLine(s string) string {
 	return s
 }
 
-var exprTokens = []string{"(", ")", "[", "]", "/", "//", "|", "@", "::", "*", "'", "\"", ",", "$", ".", "..", " and ", " or ", " div ", " mod ", "-", "=", "!=", "<", "1", "é", "#", ":", "child", "text()", "\x00", "\\", "💥"}
+var exprTokens = []string{"\t", "\n", "\t/", "[\t", "(", ")", "[", "]", "/", "//", "|", "@", "::", "*", "'", "\"", ",", "$", ".", "..", " and ", " or ", " div ", " mod ", "-", "=", "!=", "<", "1", "é", "#", ":", "child", "text()", "\x00", "\\", "💥"}
 
 func mutateExpr(t *simkit.Tape, s string) string {
 	rs := []rune(s)
@@ -430,6 +430,19 @@ type tSelfParent struct {
 }
 type tSelfSlice struct {
 	Kids []tSelfSlice `xsel:"descendant-or-self::node()"`
+}
+// recursion through nodes that alternate (child <-> parent, sibling <-> sibling)
+type tAltParent struct {
+	Kid *tAltChild `xsel:"*[1]"`
+}
+type tAltChild struct {
+	Up *tAltParent `xsel:".."`
+}
+type tAltSib struct {
+	Next []tAltSibBack `xsel:"following-sibling::*[1]"`
+}
+type tAltSibBack struct {
+	Prev []tAltSib `xsel:"preceding-sibling::*[1]"`
 }
 type tMutualA struct {
 	B *tMutualB `xsel:"."`
@@ -522,6 +535,8 @@ func targets() []struct {
 		{"*self-referential struct (..)", func() any { return &tSelfParent{} }},
 		{"*self-referential slice", func() any { return &tSelfSlice{} }},
 		{"*mutually recursive structs", func() any { return &tMutualA{} }},
+		{"*mutually recursive child/parent structs", func() any { return &tAltParent{} }},
+		{"*mutually recursive sibling structs", func() any { return &tAltSib{} }},
 		{"reflect.Value", func() any { return reflect.ValueOf(&tTagged{}) }},
 		{"unsafe-ish uintptr", func() any { return uintptr(0) }},
 	}
